@@ -40,10 +40,11 @@ X(b) == IF b THEN Req ELSE I("1")
 (* what has to be pruned there is not visible from the entry's own size                         *)
 Tree17(p) == Mk3("a", X(p[1]), "b", Mk2("c", X(p[2]), "d", L(<<X(p[3]), I("7")>>)), "l", L(<<X(p[4]), Single("e", X(p[5]))>>))
              %% Mk2("n", L(<<Single("f", Mk2("g", X(p[6]), "h", I("1")))>>), "q", L(<<L(<<Mk2("c", X(p[7]), "d", I("1"))>>)>>))
+             %% Single("$Up", Mk2("r", X(p[8]), "s", I("1")))     \* a key that starts with "$" without being a directive
 Uppers17 == {Null, Single("a", I("2")), Single("b", Single("c", I("3"))), Single("l", L(<<I("9")>>)),
              Single("b", Single("d", L(<<I("5")>>))), Single("z", Req), Mk2("a", I("2"), "b", Mk2("c", I("3"), "d", L(<<I("5")>>)))}
 CasesC17(lazy) ==
-  {[layers |-> IF IsNull(u) THEN <<Tree17(p)>> ELSE <<Tree17(p), u>>] : p \in [1..7 -> BOOLEAN], u \in Uppers17}
+  {[layers |-> IF IsNull(u) THEN <<Tree17(p)>> ELSE <<Tree17(p), u>>] : p \in [1..8 -> BOOLEAN], u \in Uppers17}
 
 ---------------------------------------------------------------------------
 (* C15 / C16: the edit catalogue *)
@@ -85,7 +86,10 @@ CasesC15(lazy) == {[base |-> Base15, target |-> t] : t \in Targets15}
             \cup {[base |-> t, target |-> Base15] : t \in Edits(Base15) \cup KindEdits(Base15)}
 
 Unrelated == Mk2("q", I("1"), "l", L(<<S("u")>>))
-Pool16 == {Base15, Unrelated} \cup Edits(Base15) \cup KindEdits(Base15)
+(* values that print alike but differ in type are different values *)
+TypeEdits(t) == { Put(t, "l", L(<<Single("k", S("1")), E2, I("3")>>)), Put(t, "l", L(<<E1, E2, S("3")>>)),
+                  Put(t, "a", S("1")), SetM(t, "y", L(<<S("1"), I("2")>>)), Put(t, "s", True) }
+Pool16 == {Base15, Unrelated} \cup Edits(Base15) \cup KindEdits(Base15) \cup TypeEdits(Base15)
 CasesC16(lazy) == {[inputs |-> <<x, y>>] : x \in Pool16, y \in Pool16}
             \cup (IF Bound >= 2 THEN {[inputs |-> <<Base15, x, y>>] : x \in Edits(Base15), y \in {Put(Base15, "a", I("2")), Del(Base15, "a"), SetM(Base15, "y", L(<<I("2"), I("1")>>)), Unrelated}} ELSE {})
 
